@@ -1679,8 +1679,11 @@ func TestVerifConc(t *testing.T) {
 			w.put(tag+"/x1", map[string]any{"type": "Note", "name": "x1", "attributedTo": u(tag + "/dave"), "content": "<p>middle</p>", "published": "2024-01-02T00:00:00Z", "inReplyTo": u(tag + "/x0")})
 			w.put(tag+"/x2", map[string]any{"type": "Note", "name": "x2", "content": "<p>leaf</p>", "published": "2024-01-03T00:00:00Z", "inReplyTo": u(tag + "/x1"),
 				"replies": map[string]any{"type": "Collection", "items": []any{}}})
-			gate3 := make(chan struct{})
-			w.h.Gated(tag+"/dave", gate3)
+			/* the author answers late by itself (nobody in this test releases it: releasing would order the keys pressed
+			   here before everything the loader does afterwards, and hide an unsynchronised access from the race detector) */
+			if route := w.h.Route(tag + "/dave"); route != nil {
+				route.Delay = 400 * time.Millisecond
+			}
 			ac := &verifConc{verifSession: verifNewSession(w, out, sid, false)}
 			ac.s = NewState(80, 24, ac.callback)
 			above, opened := -1, false
@@ -1695,12 +1698,10 @@ func TestVerifConc(t *testing.T) {
 					time.Sleep(5 * time.Millisecond)
 				}
 				time.Sleep(30 * time.Millisecond) /* the replies (none) are in; the ancestors wait for their author */
-				for _, b := range []byte("kjkkjjk") {
+				for _, b := range []byte("kjkkjjkkjkjjkkjk") {
 					ac.s.Update(b)
-					time.Sleep(2 * time.Millisecond)
+					time.Sleep(12 * time.Millisecond)
 				}
-				close(gate3)
-				w.h.Ungate(tag + "/dave")
 				if ac.settle(10 * time.Second) {
 					ac.s.m.Lock()
 					f := ac.s.h.Current().feed
@@ -1710,9 +1711,6 @@ func TestVerifConc(t *testing.T) {
 					}
 					ac.s.m.Unlock()
 				}
-			} else {
-				close(gate3)
-				w.h.Ungate(tag + "/dave")
 			}
 			if opened {
 				out.Emit(verifkit.M{"ev": "atomic", "sid": sid, "scenario": "cursor keys while the ancestors of the page wait for their author", "what": "items above the opened post", "expected": 2, "observed": above})
